@@ -361,3 +361,20 @@ PROPS["C15"] = {
     "uncovered": ["tetrahedral weights (exercised only)", "multi-variable / multi-structure conditional operators", "meshes on the sphere"],
     "assumptions": [],
 }
+
+PROPS["C17"] = {
+    "module": "GstProofs.Props.C17",
+    "theorems": [
+        "GstProofs.C17.truncated_psd", "GstProofs.C17.trunc_nonneg", "GstProofs.C17.clamp_within", "GstProofs.C17.clamp_idem",
+    ],
+    "harnesses": ["vh_c17"],
+    "level": "proof",
+    "technique": "Lean 4 theorems on the two mechanisms that make a fitted model valid whatever the input: a matrix of sills rebuilt from an eigen-basis with truncated (non-negative) eigenvalues is positive semi-definite (Mathlib matrices, any number of variables); a parameter clamped into its bounds satisfies them. Output validation of the real fitting on generated experimental variograms (smooth, pure noise, constant, periodic, very few pairs; 1-2 variables, 1-2 directions), random structures, constraints and options: every returned model is judged by the Lean driver (exact PSD certificate of each sill matrix, strictly positive ranges, each user constraint, isotropy / locked rotation, save + reload + kriging)",
+    "level_text": "Partial proof: the theorems cover the sill truncation and the clamping mechanisms, not the optimiser (Gauss-Newton 'foxleg') nor its parameter bookkeeping; that whatever the optimiser returns is valid is checked on the library per instance.",
+    "level_note": "Trusted: Lean kernel + 3 standard axioms; exact LDLt certificate. Known findings F79 (Matern parameter above 100 -> NaN covariance) and F80 (zero-sill model for a constant variable) are reported on the current tree. Contradictory user constraints are not generated.",
+    "rule": "60 (quick) / 1500 (thorough) configurations: 6-80 points in 2-D, 5 data shapes, 1-2 variables, 1-2 directions of 4-10 lags, 1-3 structures among nugget / spherical / exponential / Gaussian / cubic / Matern / linear, 0-3 non-contradictory constraints (range or sill bounds, range equality), anisotropy and rotation allowed or not. distinct = distinct request line",
+    "trivial": lambda line: False,
+    "trusted_base": TB_COMMON + ["exact LDLt certificate checker"],
+    "uncovered": ["variogram-map fitting", "the optimiser itself", "constraints on angles / parameters / tapering", "3-D"],
+    "assumptions": ["user constraints are mutually compatible"],
+}
